@@ -1,9 +1,11 @@
 //! rqcheck: bounded-exhaustive checks of the properties C01..C19 of cberner/raptorq (see /verif/DESIGN.md)
 #![allow(clippy::needless_range_loop, clippy::too_many_arguments, clippy::type_complexity)]
 mod common;
+mod explore;
 mod rfcref;
 mod tables;
 
+mod c02;
 mod c04;
 mod c05;
 mod c06;
@@ -78,6 +80,7 @@ fn main() {
     }
 
     let (run, rep): (fn(&Ctx) -> i32, ReplayFn) = match id.as_str() {
+        "C02" => (c02::run, c02::replay),
         "C04" => (c04::run, c04::replay),
         "C05" => (c05::run, c05::replay),
         "C06" => (c06::run, c06::replay),
